@@ -337,10 +337,13 @@ func checkC04(cx *Ctx, r *Report) {
 			if !ok {
 				continue
 			}
-			// the case may be decided where the piece of fn that holds the call is called
+			// the case may be decided where the piece of fn that holds the call is called (at each such place)
 			var outer []APath
-			if via := cx.viaSite(fn, c); via != c {
-				outer, _ = fx.atomPathsTo(via.Block(), 4096)
+			for _, via := range cx.viaSites(fn, c) {
+				if via != c {
+					o, _ := fx.atomPathsTo(via.Block(), 4096)
+					outer = append(outer, o...)
+				}
 			}
 			if len(outer) > 0 {
 				var comb []APath
@@ -386,6 +389,22 @@ func checkC04(cx *Ctx, r *Report) {
 			same = false
 		}
 	}
+	// each kind of delivery under the binding whose signature it can carry: the form (enveloped signature) only for
+	// HTTP-POST, the redirect (detached signature in the query) only for HTTP-Redirect
+	formB, _ := bindingsAt(sb, func(c ssa.CallInstruction) bool { return fx.replyAct(c) == "Template.Execute" }, ".ProtocolBinding")
+	redirB, _ := bindingsAt(sb, func(c ssa.CallInstruction) bool { return fx.replyAct(c) == "http.Redirect" }, ".ProtocolBinding")
+	kindBad := ""
+	for b := range formB {
+		if b != "HTTP-POST" {
+			kindBad = "the auto-submit form is also delivered for " + b + ", whose signature is not in the document: the assertion in that form is unsigned"
+		}
+	}
+	for b := range redirB {
+		if b != "HTTP-Redirect" {
+			kindBad = "a redirect is also used for " + b + ", which createSignature signs differently"
+		}
+	}
+	r.Check(kindBad == "", "R-SIB", "delivery-kind-per-binding", w.FnPos(sb), "form only for HTTP-POST, redirect only for HTTP-Redirect", kindBad)
 	r.Check(same, "R-SIB", "sign-table=send-table", w.FnPos(cs), fmt.Sprintf("signing cases %v = delivery cases %v", keysOf(signB), keysOf(sendB)), fmt.Sprintf("createSignature signs for %v but sendBackResponse delivers for %v: a binding can be delivered without its signature", keysOf(signB), keysOf(sendB)))
 	// the raw-body path
 	for _, c := range callsIn(sb) {
